@@ -356,6 +356,18 @@ fn check_lanes<Q: QuatT>(w: &[u64], t: &mut Tally) -> Result<(), Fail> {
     lanes("mul_scalar", Q::scal(&q, s).arr(), m(&|x, _| x.fmul(s)))?;
     lanes("div_scalar", Q::divs(&q, s).arr(), m(&|x, _| x.fdiv(s)))?;
     lanes("neg", Q::negate(&q).arr(), m(&|x, _| x.fneg()))?;
+    // negation and conjugation only flip sign bits: bit for bit, including the sign of zero (NaNs identified)
+    let bits = |op: &str, got: [Q::T; 4], exp: [Q::T; 4]| -> Result<(), Fail> {
+        for i in 0..4 {
+            let nan = got[i].to64() != got[i].to64() && exp[i].to64() != exp[i].to64();
+            if got[i].tb() != exp[i].tb() && !nan {
+                return Err(fail::<Q>(op, "bits", format!("component {i} (xyzw order): got {:?} (0x{:x}) expected {:?} (0x{:x}) bit for bit; {}", got[i], got[i].tb(), exp[i], exp[i].tb(), ctx())));
+            }
+        }
+        Ok(())
+    };
+    bits("neg", Q::negate(&q).arr(), m(&|x, _| x.fneg()))?;
+    bits("conjugate", Q::conj(&q).arr(), [qa[0].fneg(), qa[1].fneg(), qa[2].fneg(), qa[3]])?;
     // dot, length, length_squared, length_recip and normalize "act like the 4-vector operations": the same value
     // as the Vec4 / DVec4 operation of this build on the same components (NaNs identified)
     let (scalars, nq, nv) = Q::like_vec4(&q, &p);
